@@ -140,6 +140,16 @@ def report(V, fam, results, sessions_by_id=None, maxreports=40):
             start, decl, cmds = session_of(events, idx)
             ev = events[idx]
             kind = ev.get("c", {}).get("k", ev["e"])
+            head = lambda t: re.sub(r"[^a-z-]", "", t.strip("( ").split(" ")[0].lower())[:20]
+            if kind in ("bad", "probe"):
+                kind += "(%s)" % head(ev.get("text", ""))
+                if kind.startswith("probe"):
+                    prev = [e for e in cmds[:-1] if e.get("c", {}).get("k") == "bad"]
+                    if prev:
+                        kind += "<-bad(%s)" % head(prev[-1].get("text", ""))
+            if ev["e"] == "abort":
+                code += "(%s)" % re.sub(r"[^A-Za-z ]", "", re.sub(r"`[^`]*`", "", ev.get("why", "")))[:40].strip()
+                kind = "after-clone" if any(e["e"] == "clone" for e in cmds) else "single-egraph"
             afterfail = any(e.get("res") in ("err", "panic") and e.get("c", {}).get("k") not in ("check", "bad") for e in cmds[:-1])
             key = "%s:%s:%s:%s%s" % (fam, code, kind, tag, ":afterfail" if afterfail else "")
             n += 1
